@@ -16,6 +16,21 @@ def run(chk, path):
     runner.build_harness()
     c = dict(case)
     c.setdefault("id", 0)
+    if "parse_sequence" in c:               # C14: results of a sequence of parses, looked at again at the end
+        out = runner.run_go([{"id": 0, "op": "parseseq", "args": c["parse_sequence"]}])[0]
+        print("go:", json.dumps(out)[:3000])
+        return 0
+    if "stream" in c:                       # C19: a framed byte stream into MessageBuffer.Read, and the frame model
+        import wire
+        reads = max(1, c["stream"].count("436f6e74656e742d4c656e677468") + c["stream"].count("636f6e74656e742d6c656e677468"))
+        out = runner.run_go([{"id": 0, "op": "frame", "text": c["stream"], "repeat": reads}])[0]
+        print("go:", json.dumps(out)[:3000])
+        print("model:", wire.model_read([wire.unhex(c["stream"])])[0])
+        return 0
+    if "history" in c:                      # C19: an LSP session in-process
+        out = runner.run_go([{"id": 0, "op": "lsp", "history": c["history"]}])[0]
+        print("go:", json.dumps(out)[:3000])
+        return 0
     if "op" not in c:
         c["op"] = "analyze" if "positions" in c or ("script" in c and "vars" not in c) else "exec"
     out = runner.run_go([c])[0]
